@@ -100,7 +100,7 @@ func GenScript(r *hx.Rand, kinds []string, nops int) []string {
 	for i := 0; i < nops; i++ {
 		switch x := r.Intn(100); {
 		case x >= 100-Corruption:
-			script = append(script, fmt.Sprintf("corrupt %d %s", r.Intn(total), []string{"s", "s", "r", "c", "w", "a", "q"}[r.Intn(7)]))
+			script = append(script, fmt.Sprintf("corrupt %d %s", r.Intn(total), []string{"s", "s", "r", "c", "w", "a", "q", "d", "D"}[r.Intn(9)]))
 		case x == 0 && bm.Alloc == "dev" && Corruption == 0:
 			script = append(script, fmt.Sprintf("ioerr %s %d", []string{"r", "w"}[r.Intn(2)], r.Intn(3)))
 		case x < 30:
@@ -129,7 +129,7 @@ func GenScript(r *hx.Rand, kinds []string, nops int) []string {
 			}
 			nextOp++
 		case x < 70:
-			script = append(script, fmt.Sprintf("get %d %s", r.Intn(total), []string{"s", "s", "s", "r", "c", "w", "a", "q", "p", "d", "x"}[r.Intn(11)]))
+			script = append(script, fmt.Sprintf("get %d %s", r.Intn(total), []string{"s", "s", "s", "r", "c", "w", "a", "q", "p", "d", "x", "o"}[r.Intn(12)]))
 		case x < 85:
 			n := r.Range(1, 3)
 			var os []string
